@@ -308,6 +308,8 @@ def run(chk, facts, info):
     c13.rule_r6(_Sub(chk, 'C16-R7', lambda key: True), facts, P)
     rule_r5(chk, facts, P)
     rule_r6(chk, facts)
+    from . import c16_blanktab
+    c16_blanktab.run(chk, facts)
     rule_r1(chk, facts, P)
     rule_r2(chk, facts, P)
     rule_r3(chk, facts)
